@@ -221,6 +221,7 @@ void run_tcpframe(Ctx &c, const ares_dns_record_t *r1, const ares_dns_record_t *
     c.rep.executions++;
     ref::Dump    d0 = ares_dump(recs[i], nullptr, nullptr);
     bool         ok = true;
+    if (rd.pointers_followed > 0 || rd.first_name_fail != ref::NF_NONE) c.rep.witness("tcpframe_compression_checked");
     if (rd.st == ref::MALFORMED) {
       bool nm = rd.first_name_fail != ref::NF_NONE;
       c.viol(std::string("C03:tcpframe:") + (nm ? "compression-offset" : "malformed") + ":" + tag, "the message inside the frame does not decode with the independent decoder: " + rd.why + " (" + shape + ", prefill " + std::to_string(prefill) + ", consumed " + std::to_string(consumed) + ")");
